@@ -82,6 +82,13 @@ def _exec(self, x, get_child, get_param, get_var):
         o = c(x)
         x = o['x']
         ks = ks + tuple(o['k'])
+    elif op in ('cond', 'switch', 'while'):
+      x, ks2 = _control(self, st, x)
+      ks = ks + ks2
+    elif op == 'sub':
+      o = self.sub(x)
+      x = o['x']
+      ks = ks + tuple(o['k'])
     elif op == 'leak':
       LEAKS.append(self.scope)
     else:
@@ -89,26 +96,125 @@ def _exec(self, x, get_child, get_param, get_var):
   return {'x': x, 'k': ks}
 
 
+def _control(self, st, x):
+  """('cond', lifted, pred, cls, cd, name) | ('switch', lifted, index, cls, cd, name)
+  | ('while', lifted, trips, cls, cd, name, carry_cols).
+  The child is created inside the branch / body under an explicit name (the
+  documented idiom); when initializing it is called once before the control
+  flow so that its variables exist (same in the lifted and the plain form)."""
+  op, lifted, arg, cls, cd, name = st[:6]
+  ki = self.ki
+
+  if lifted:
+    def call(mdl, x):
+      # created in the context of `mdl` (the lifted clone inside the transform)
+      return CLS[cls](d=cd, ki=ki, name=name, parent=mdl)(x)
+  else:
+    inst = CLS[cls](d=cd, ki=ki, name=name, parent=self)
+
+    def call(mdl, x):
+      return inst(x)
+
+  ks = ()
+  if self.is_initializing():
+    o = call(self, x)
+    x, ks = o['x'], tuple(o['k'])
+    pre = True
+  if op == 'cond':
+    if lifted:
+      o = nn.cond(bool(arg), lambda m, x: call(m, x), lambda m, x: call(m, x + 1.0), self, x)
+    else:
+      o = call(self, x) if arg else call(self, x + 1.0)
+    return o['x'], ks + tuple(o['k'])
+  if op == 'switch':
+    if lifted:
+      branches = [(lambda m, x, i=i: call(m, x + float(i))) for i in range(3)]
+      o = nn.switch(int(arg), branches, self, x)
+    else:
+      o = call(self, x + float(arg))
+    return o['x'], ks + tuple(o['k'])
+  if op == 'while':
+    carry_cols = list(st[6]) if len(st) > 6 else []
+    if lifted:
+      def cond_fn(m, c):
+        return c['i'] < arg
+
+      def body_fn(m, c):
+        o = call(m, c['x'])
+        return {'i': c['i'] + 1, 'x': o['x']}
+      c = nn.while_loop(cond_fn, body_fn, self, {'i': jnp.int32(0), 'x': x},
+                        carry_variables=carry_cols, broadcast_variables=True)
+      return c['x'], ks
+    i = 0
+    while i < arg:
+      x = call(self, x)['x']
+      i += 1
+    return x, ks
+  raise AssertionError(op)
+
+
 LEAKS: list = []
+SHARED: dict = {}   # slot -> module instance handed to several parents (set by the harness)
+
+
+TRACES: list = []   # (class name, definition) appended every time a body is interpreted
+
+
+def _compact_call(self, x):
+  TRACES.append((type(self).__name__, self.d))
+
+  def get_child(i, st):
+    kw = {}
+    if len(st) > 5 and st[5] is not None:
+      kw['sub'] = SHARED[st[5]]
+    key = st[1]
+    if '"init": "auto"' in key:
+      # the documented idiom map_variables(..., init=self.is_initializing())
+      key = key.replace('"init": "auto"',
+                        '"init": true' if self.is_initializing() else '"init": false')
+    return CLS[key](d=st[2], ki=self.ki, name=st[3], **kw)
+
+  def get_param(i, st, x):
+    shape = () if st[2] == 's' else (x.shape[-1],)
+    return self.param(st[1], pinit(self.ki), shape)
+
+  def get_var(i, st):
+    return self.variable(st[1], st[2], vzero)
+
+  return _exec(self, x, get_child, get_param, get_var)
 
 
 class _Compact(nn.Module):
   d: tuple = ()
   ki: bool = False
+  sub: Any = None
 
   @nn.compact
   def __call__(self, x):
-    def get_child(i, st):
-      return CLS[st[1]](d=st[2], ki=self.ki, name=st[3])
+    return _compact_call(self, x)
 
-    def get_param(i, st, x):
-      shape = () if st[2] == 's' else (x.shape[-1],)
-      return self.param(st[1], pinit(self.ki), shape)
 
-    def get_var(i, st):
-      return self.variable(st[1], st[2], vzero)
+class AJ(nn.Module):
+  """decorator form: the method, not the class, is transformed"""
+  d: tuple = ()
+  ki: bool = False
+  sub: Any = None
 
-    return _exec(self, x, get_child, get_param, get_var)
+  @nn.jit
+  @nn.compact
+  def __call__(self, x):
+    return _compact_call(self, x)
+
+
+class AR(nn.Module):
+  d: tuple = ()
+  ki: bool = False
+  sub: Any = None
+
+  @nn.remat
+  @nn.compact
+  def __call__(self, x):
+    return _compact_call(self, x)
 
 
 class A(_Compact):
@@ -145,33 +251,72 @@ class S(nn.Module):
 
 
 class _ClsTable(dict):
-  """'A' | 'B' | 'S' | '<transform>:<base>' (e.g. 'jit:A'); transformed classes are
+  """'A' | 'B' | 'S' | '<transform>@<base>' (e.g. 'jit@A'); transformed classes are
   built on first use by the factory registered in TRANSFORMS."""
 
   def __missing__(self, key):
-    t, base = key.split(':', 1)
-    c = TRANSFORMS[t](self[base])
+    t, base = key.rsplit('@', 1)
+    name, _, args = t.partition('[')
+    kw = {}
+    if args:
+      import json
+      kw = json.loads(args.rstrip(']'))
+    c = TRANSFORMS[name](self[base], **{k: _decode_filter(v) for k, v in kw.items()})
     self[key] = c
     return c
 
 
-CLS = _ClsTable({'A': A, 'B': B, 'S': S})
+CLS = _ClsTable({'A': A, 'B': B, 'S': S, 'AJ': AJ, 'AR': AR})
+def _decode_filter(v):
+  if isinstance(v, dict) and 'deny' in v:
+    return to_flax_filter(v)
+  return v
+
+
+def tcls(name, base, **kw):
+  """class key of a transformed class with lifting arguments, e.g.
+  tcls('jit', 'A', variables='params') -> 'jit[{"variables": "params"}]@A'"""
+  import json
+  if not kw:
+    return f'{name}@{base}'
+  return f'{name}[{json.dumps(kw, sort_keys=True)}]@{base}'
+
+
+def _ident(v):
+  return v
+
+
 TRANSFORMS = {
-  'jit': lambda c: nn.jit(c),
-  'remat': lambda c: nn.remat(c),
-  'checkpoint': lambda c: nn.checkpoint(c, policy=None),
+  'jit': lambda c, **kw: nn.jit(c, **kw),
+  'remat': lambda c, **kw: nn.remat(c, **kw),
+  'checkpoint': lambda c, **kw: nn.checkpoint(c, policy=None, **kw),
+  'mapv': lambda c, mapped='params', **kw: nn.map_variables(
+    c, mapped, trans_in_fn=_ident, trans_out_fn=_ident, **kw),
 }
 
 
 def base_cls(cls):
-  return cls.split(':', 1)[-1]
+  return cls.rsplit('@', 1)[-1]
+
+
+def auto_class_name(cls):
+  """Class name used in auto-generated names (learned from the class object)."""
+  return CLS[cls].__name__
 
 
 def strip_transforms(d):
-  """The plain program: every 'T:X' class replaced by 'X'."""
-  return tuple(
-    (('child', base_cls(st[1]), strip_transforms(st[2])) + tuple(st[3:]))
-    if st[0] == 'child' else st for st in d)
+  """The plain program: every 'T@X' class replaced by 'X'."""
+  out = []
+  for st in d:
+    if st[0] == 'child':
+      b = base_cls(st[1])
+      b = {'AJ': 'A', 'AR': 'A'}.get(b, b)
+      out.append(('child', b, strip_transforms(st[2])) + tuple(st[3:]))
+    elif st[0] in ('cond', 'switch', 'while'):
+      out.append((st[0], False, st[2], base_cls(st[3]), strip_transforms(st[4])) + tuple(st[5:]))
+    else:
+      out.append(st)
+  return tuple(out)
 
 
 def make(cls, d, ki=False, **kw):
@@ -246,7 +391,7 @@ def _put(store, col, path, val):
   d[path[-1]] = val
 
 
-def ref_run(cls, d, store, mutable, x, keys=None, initializing=False):
+def ref_run(cls, d, store, mutable, x, keys=None, initializing=False, trace=None):
   """Runs definition `d` (class `cls`) on a deep-copied `store`.
 
   `mutable(col) -> bool`.  `keys`: list of key-data arrays observed from the
@@ -315,6 +460,8 @@ def ref_run(cls, d, store, mutable, x, keys=None, initializing=False):
           if cur is None:
             reserve(n, col)
             cur = ()
+          if not isinstance(cur, tuple):
+            raise RefError('sow-type', f'sow onto a non-tuple variable {col}/{n} at {path}')
           _put(store, col, path + (n,), tuple(cur) + (np.array(x),))
       elif op == 'perturb':
         _, n = st
@@ -339,12 +486,17 @@ def ref_run(cls, d, store, mutable, x, keys=None, initializing=False):
           if cls == 'S':
             name = f'c{i}'
           else:
-            j = auto.get(ccls, 0)
-            auto[ccls] = j + 1
-            name = autoname(ccls, j)
+            an = auto_class_name(ccls)
+            j = auto.get(an, 0)
+            auto[an] = j + 1
+            name = autoname(an, j)
         reserve(name, None)
-        for _ in range(times):
-          x = run(ccls, cd, path + (name,), x)
+        for ci in range(times):
+          x_in = x
+          x = run(base_cls(ccls), cd, path + (name,), x)
+          if trace is not None:
+            trace.append(dict(path=path + (name,), call=ci, cls=ccls, d=cd,
+                              x_in=np.array(x_in), x_out=np.array(x)))
       elif op == 'leak':
         pass
       else:
@@ -471,18 +623,57 @@ def has(d, pred):
   for st in d:
     if pred(st):
       return True
-    if st[0] == 'child' and has(st[2], pred):
+    if _is_nested(st) and has(st[_def_index(st)], pred):
       return True
   return False
 
 
+def _is_nested(st):
+  return st[0] in ('child', 'cond', 'switch', 'while')
+
+
+def _def_index(st):
+  return 2 if st[0] == 'child' else 4
+
+
 def tolist(d):
+  out = []
+  for st in d:
+    if _is_nested(st):
+      i = _def_index(st)
+      out.append([_j(v) for v in st[:i]] + [tolist(st[i])] + [_j(v) for v in st[i + 1:]])
+    else:
+      out.append([_j(v) for v in st])
+  return out
+
+
+def _j(v):
+  return list(v) if isinstance(v, tuple) else v
+
+
+def fromlist(l):
+  out = []
+  for st in l:
+    if _is_nested(st):
+      i = _def_index(st)
+      out.append(tuple(_t(v) for v in st[:i]) + (fromlist(st[i]),) +
+                 tuple(_t(v) for v in st[i + 1:]))
+    else:
+      out.append(tuple(_t(v) for v in st))
+  return tuple(out)
+
+
+def _t(v):
+  return tuple(v) if isinstance(v, list) else v
+
+
+def _old_tolist(d):
   """JSON-able form of a definition (tuples -> lists)."""
   return [([st[0], st[1], tolist(st[2])] + list(st[3:])) if st[0] == 'child' else list(st)
           for st in d]
 
 
-def fromlist(l):
+def _old_fromlist(l):
   return tuple(
-    (('child', st[1], fromlist(st[2])) + tuple(st[3:])) if st[0] == 'child' else tuple(st)
+    (('child', st[1], _old_fromlist(st[2])) + tuple(st[3:])) if st[0] == 'child' else tuple(st)
     for st in l)
